@@ -25,6 +25,12 @@ BODY = {"create": ("assert 5 == snapshot()", "assert 5 == snapshot(5)"),
 
 
 def gen(rng, tier, shape=None):
+    if shape and shape.get("plain"):
+        # scope of C19: plain category flags on the command line, nothing else
+        pending = [c for c in CATS if rng.random() < 0.8]
+        return {"pending": pending, "cli": [c for c in CATS if rng.random() < 0.45], "env": None, "pyd": None, "pyd_tui": None,
+                "shortcut": None, "tty": False, "ci": None, "xdist": None, "answers": {c: False for c in CATS}, "skip": False,
+                "xfail": False, "dup": rng.random() < 0.3, "unknown": False, "empty_no": False}
     pending = [c for c in CATS if rng.random() < 0.75]
     cats = [c for c in CATS if rng.random() < 0.4]
     mode = rng.choice([[], [], ["report"], ["review"], ["short-report"], ["disable"]])
@@ -229,17 +235,24 @@ def three_way(src, cats):
             with contextlib.redirect_stdout(sink), contextlib.redirect_stderr(sink):
                 ex = Example({"test_a.py": src})
                 if name == "run_inline":
-                    try:
-                        new = ex.run_inline([flag] if cats else [])
-                    except AssertionError:
-                        # run_inline re-raises the first test failure unless `raises` is given; run again collecting it
-                        new = ex.run_inline([flag] if cats else [], raises=_Anything())
+                    cap = _Capture()
+                    new = ex.run_inline([flag] if cats else [], raises=_Anything(), reported_categories=cap)
+                    out["inline_reported"] = cap.seen
                 else:
                     new = ex.run_pytest([flag] if cats else [], returncode=_Anything())
             out[name] = new.files.get("test_a.py")
         except BaseException as e:  # noqa: BLE001
             out[name] = "EXC " + type(e).__name__ + ": " + str(e)[:200]
     return out
+
+
+class _Capture:
+    """stands in for a snapshot argument of the testing helpers: remembers what it is compared with"""
+    seen = None
+
+    def __eq__(self, other):
+        self.seen = other
+        return True
 
 
 class _Anything:
@@ -332,6 +345,9 @@ def oracle(case, obs):
     tw = obs.get("three_way")
     if tw:
         real = obs["after"]
+        rep = tw.pop("inline_reported", None)
+        if rep is not None and sorted(rep) != sorted(case["pending"]):
+            fails.append(("C19", "pending_categories_agree", f"run_inline reports pending {rep}, the project has pending {sorted(case['pending'])} (flags {case['cli']})"))
         for k, v in tw.items():
             if v != real:
                 fails.append(("C19", "helpers_agree", f"{k} gives a different test_a.py than the real session for --inline-snapshot={','.join(case['cli'])}: {str(v)[:300]!r}"))
